@@ -142,6 +142,9 @@ func ruleTokenCID(c *Ctx) {
 				} else {
 					// subscriber: created for / obtained from the same connection, or the method's own parameter
 					r := req
+					if lv := p.localObjectField(r); lv != nil {
+						r = stripConv(lv) // kept in a field of a parameter object built by this function
+					}
 					if u, ok := r.(*ssa.UnOp); ok && u.Op == token.MUL {
 						// cell: find its single store
 						if al, ok := u.X.(*ssa.Alloc); ok {
@@ -535,4 +538,94 @@ func ruleCIDTaint(c *Ctx) {
 			}
 		}
 	}
+}
+
+// localObjectField: v is a load of a field of a struct that the enclosing
+// top-level function allocates itself (a parameter object: `hc := &httpCall{sub:
+// NewSubscription(…)}` … `hc.sub`), the field is written only while such
+// objects are under construction, and the allocation has exactly one store to
+// it: the value stored there. Otherwise nil.
+func (p *Prog) localObjectField(v ssa.Value) ssa.Value {
+	u, ok := v.(*ssa.UnOp)
+	if !ok || u.Op != token.MUL {
+		return nil
+	}
+	fa, ok := u.X.(*ssa.FieldAddr)
+	if !ok {
+		return nil
+	}
+	f := fieldOfAddr(fa)
+	if f == nil || !p.initOnlyField(f) {
+		return nil
+	}
+	var baseAlloc func(x ssa.Value, d int) *ssa.Alloc
+	cellContent := func(al *ssa.Alloc) ssa.Value {
+		var val ssa.Value
+		n := 0
+		for _, rr := range *al.Referrers() {
+			if st, ok := rr.(*ssa.Store); ok && st.Addr == ssa.Value(al) {
+				val = st.Val
+				n++
+			}
+		}
+		if n == 1 {
+			return val
+		}
+		return nil
+	}
+	baseAlloc = func(x ssa.Value, d int) *ssa.Alloc {
+		if d > 6 {
+			return nil
+		}
+		switch y := stripConv(x).(type) {
+		case *ssa.Alloc:
+			if pt, ok := y.Type().Underlying().(*types.Pointer); ok {
+				if _, isStruct := pt.Elem().Underlying().(*types.Struct); isStruct {
+					return y
+				}
+			}
+		case *ssa.UnOp:
+			if y.Op != token.MUL {
+				return nil
+			}
+			switch c := y.X.(type) {
+			case *ssa.Alloc:
+				if cv := cellContent(c); cv != nil {
+					return baseAlloc(cv, d+1)
+				}
+			case *ssa.FreeVar:
+				if mc := p.parent[c.Parent()]; mc != nil {
+					for i, fv := range c.Parent().FreeVars {
+						if fv == c && i < len(mc.Bindings) {
+							switch b := mc.Bindings[i].(type) {
+							case *ssa.Alloc:
+								if cv := cellContent(b); cv != nil {
+									return baseAlloc(cv, d+1)
+								}
+							case *ssa.FreeVar:
+								return baseAlloc(&ssa.UnOp{Op: token.MUL, X: b}, d+1)
+							}
+						}
+					}
+				}
+			}
+		}
+		return nil
+	}
+	al := baseAlloc(fa.X, 0)
+	if al == nil {
+		return nil
+	}
+	var val ssa.Value
+	n := 0
+	for _, st := range p.stores[f] {
+		if sfa, ok := st.Addr.(*ssa.FieldAddr); ok && sfa.X == ssa.Value(al) {
+			val = st.Val
+			n++
+		}
+	}
+	if n == 1 {
+		return val
+	}
+	return nil
 }
